@@ -1384,7 +1384,7 @@ def sty_shape(t):
     if "r" in t:
         return ("rp(" if t["pattern"] else "r(") + sty_shape(t["r"]) + ")"
     if "l" in t:
-        return "l(" + sty_shape(t["l"]) + ")"
+        return ("la(" if t.get("anon") else "l(") + sty_shape(t["l"]) + ")"
     return "u(" + ",".join(sty_shape(m) for m in t["u"]) + ")"
 
 
@@ -1401,7 +1401,11 @@ def gen_sty(rng, depth, atomic=False):
     if k == "r":
         return {"r": gen_sty(rng, depth - 1, atomic), "pattern": rng.random() < 0.3}
     if k == "l":
-        return {"l": gen_sty(rng, depth - 1, True)}
+        item = gen_sty(rng, depth - 1, True)
+        t = {"l": item}
+        if ("r" in item and not item["pattern"] and "b" in item["r"]) or ("u" in item and all("b" in m for m in item["u"])):
+            t["anon"] = rng.random() < 0.6
+        return t
     return {"u": [gen_sty(rng, depth - 1, atomic) for _ in range(rng.randint(1, 3))]}
 
 
@@ -1416,6 +1420,12 @@ def sty_xsd(t, decls):
         if "r" in t:
             base = name_of(t["r"])
             body = f'<xs:restriction base="{base}">' + ('<xs:pattern value="[^#]*"/>' if t["pattern"] else "") + "</xs:restriction>"
+        elif "l" in t and t.get("anon"):
+            # the item type as an anonymous simpleType child (a facet-free restriction or a union of builtins)
+            it = t["l"]
+            inner = (f'<xs:restriction base="{name_of(it["r"])}"/>' if "r" in it
+                     else '<xs:union memberTypes="' + " ".join(name_of(m) for m in it["u"]) + '"/>')
+            body = f"<xs:list><xs:simpleType>{inner}</xs:simpleType></xs:list>"
         elif "l" in t:
             body = f'<xs:list itemType="{name_of(t["l"])}"/>'
         else:
